@@ -1,4 +1,156 @@
-/- Props.C03 — placeholder while the differential is being built -/
-import FalconModel.Isa.A64
+/-
+  Props.C03 — the AArch64 lifter agrees with the Arm architecture pseudocode.
+
+  Specification : FalconModel/Isa/A64.lean   (`A64.step`: interpreter on the RAW word, written from the Arm ARM
+                                              pseudocode: AddWithCarry, ShiftReg, ExtendReg, DecodeBitMasks, Mem[] …)
+  Mirror        : FalconModel/Isa/A64Lift.lean (`A64Lift.lift w addr`: the `BlockTranslationResult` falcon's lifter
+                                              emits for the word — compared SYNTACTICALLY with falcon's dumped IL on
+                                              every case of the differential, `MIRROR-SAME`/`MIRROR-DIFF`)
+  IL semantics  : FalconModel/Lift.lean `runBTR` over FalconModel/Exec.lean (C07/C08 tie it to falcon's executor)
+  `Abs σ s`     : the IL state σ holds the A64 state s (x0…x30, sp, n, z, c, v under the lifter's scalar names, the
+                  same byte memory and data endianness; temporaries and the junk scalar `xzr` are unconstrained)
+  `Agrees r σ w s`: running the lifted block r from σ ends at the successor / branch target s'.pc in a state σ'
+                  with `Abs σ' s'`, where `A64.step w s = .ok s'`.
+
+  COVERAGE (LIFTER_BRIEF "the proof part"):
+  (A) mirror + theorem, universal over ALL words of the class, ALL addresses < 2^64 - 4 and ALL states:
+        add/sub (immediate) incl. MOV (to/from SP)          lift_correct_addSubImm     [adds: all of NZCV]
+        add/sub (shifted register: lsl/lsr/asr, 32/64 bit)  lift_correct_addSubShift   [adds: all of NZCV]
+        subs (both forms): result, N, Z, V agree; the IL's `c` is proved to be the NEGATION of the architectural
+            carry (`AgreesBorrow`) — this is the recorded finding C03/*/addsub_*/*op1_S1*/c, not a gap of the proof
+        mov (register), mov (wide / inverted wide immediate), nop
+                                                             lift_correct_movReg / movWide / nop
+        b, bl                                                lift_correct_b_bl
+        br, blr, ret                                         lift_correct_br_blr_ret
+  (A-partial) integer loads with immediate addressing (ldr/ldrb/ldrh/ldrsb/ldrsh/ldrsw; unsigned offset, unscaled,
+        post-index, pre-index; both endiannesses): `load_block_correct_partial` proves the emitted block shape against
+        the pseudocode body `A64.ldstInt` for all registers/offsets/sizes/states that neither fault nor wrap; the glue
+        "`lift w` of a word of the class IS that block, `A64.step w` IS that body" is checked by the differential
+        (MIRROR-SAME on every case), not proved.   Full statement that is NOT proved:
+          ∀ w of class ldst_uimm/ldst_imm9 (V=0, load), lift w addr = some r → A64.step w s = .ok s' → Agrees r σ w s.
+  (C) differential only (`unproved_classes`): add/sub (extended register), mov (bitmask immediate), stores,
+        register-offset and literal loads, pairs, load-acquire/store-release, STLUR, SIMD&FP loads/stores, prefetch,
+        b.cond, cbz/cbnz, tbz/tbnz.  (b.cond/cbz/tbz are in the mirror and compared syntactically; no theorem.)
+-/
+import FalconProofs.C03.Load
+
 namespace Falcon.C03
+open Falcon Falcon.Const Falcon.A64Lift
+open Falcon.A64 (fld bit)
+
+/-! ### AddWithCarry against falcon's flag expressions (all widths 1 ≤ N ≤ 64, all operands) -/
+
+/-- `adds`: the carry flag of `AddWithCarry` is falcon's `zext72(x + y) != zext72 x + zext72 y` -/
+theorem adds_carry {N : Nat} (hN : N ≤ 64) (x y : BitVec N) :
+    (A64.addWithCarry x y false).2.2.2.1 = ((x + y).zeroExtend 72 != x.zeroExtend 72 + y.zeroExtend 72) :=
+  awc_c_add hN x y
+
+/-- `adds`: the overflow flag of `AddWithCarry` is falcon's `sext72(x + y) != sext72 x + sext72 y` -/
+theorem adds_overflow {N : Nat} (hN1 : 1 ≤ N) (hN : N ≤ 64) (x y : BitVec N) :
+    (A64.addWithCarry x y false).2.2.2.2 = ((x + y).signExtend 72 != x.signExtend 72 + y.signExtend 72) :=
+  awc_v_add hN1 hN x y
+
+/-- `subs`: falcon's `c` expression is the BORROW, i.e. the negation of `AddWithCarry(x, NOT y, 1)`'s carry
+    (the genuine defect recorded as finding `C03/*/addsub_*/*op1_S1*/c`) -/
+theorem subs_carry_is_borrow {N : Nat} (hN : N ≤ 64) (x y : BitVec N) :
+    ((x - y).zeroExtend 72 != x.zeroExtend 72 - y.zeroExtend 72) = !(A64.addWithCarry x (~~~y) true).2.2.2.1 :=
+  (awc_c_sub hN x y).symm
+
+theorem subs_overflow {N : Nat} (hN1 : 1 ≤ N) (hN : N ≤ 64) (x y : BitVec N) :
+    (A64.addWithCarry x (~~~y) true).2.2.2.2 = ((x - y).signExtend 72 != x.signExtend 72 - y.signExtend 72) :=
+  awc_v_sub hN1 hN x y
+
+/-! ### (A) class theorems: all words of the class × all addresses × all states -/
+
+/-- ADD/ADDS/SUB/SUBS (immediate), `sf op S 100010 sh imm12 Rn Rd`, incl. the `mov Rd|SP, Rn|SP` alias, register 31 =
+    SP (base, and destination when S = 0) or discarded (S = 1), W destinations zero-extended, `lsl #12` -/
+theorem lift_correct_addSubImm (w : BitVec 32) (addr : Nat) (r : BTR) (hc : fld w 28 23 = 0b100010)
+    (h : lift w addr = some r) (σ : State) (s : A64.St) (ha : Abs σ s)
+    (hpc : s.pc = BitVec.ofNat 64 addr) (haddr : addr + 4 < 2 ^ 64) :
+    if bit w 30 = true ∧ bit w 29 = true then AgreesBorrow r σ w s else Agrees r σ w s :=
+  addSubImm_agrees w addr r hc h σ s ha hpc haddr
+
+/-- ADD/ADDS/SUB/SUBS (shifted register), `sf op S 01011 shift 0 Rm imm6 Rn Rd`, register 31 = XZR/WZR -/
+theorem lift_correct_addSubShift (w : BitVec 32) (addr : Nat) (r : BTR) (hc : fld w 28 24 = 0b01011)
+    (h21 : bit w 21 = false) (h : lift w addr = some r) (σ : State) (s : A64.St) (ha : Abs σ s)
+    (hpc : s.pc = BitVec.ofNat 64 addr) (haddr : addr + 4 < 2 ^ 64) :
+    if bit w 30 = true ∧ bit w 29 = true then AgreesBorrow r σ w s else Agrees r σ w s :=
+  addSubShift_agrees w addr r hc h21 h σ s ha hpc haddr
+
+/-- MOV (register): every word of the logical (shifted register) class the mirror accepts -/
+theorem lift_correct_movReg (w : BitVec 32) (addr : Nat) (r : BTR) (hc : fld w 28 24 = 0b01010)
+    (h : lift w addr = some r) (σ : State) (s : A64.St) (ha : Abs σ s)
+    (hpc : s.pc = BitVec.ofNat 64 addr) (haddr : addr + 4 < 2 ^ 64) : Agrees r σ w s :=
+  movReg_agrees w addr r hc h σ s ha hpc haddr
+
+/-- MOV (wide immediate) and MOV (inverted wide immediate): every word of the move-wide class the mirror accepts -/
+theorem lift_correct_movWide (w : BitVec 32) (addr : Nat) (r : BTR) (hc : fld w 28 23 = 0b100101)
+    (h : lift w addr = some r) (σ : State) (s : A64.St) (ha : Abs σ s)
+    (hpc : s.pc = BitVec.ofNat 64 addr) (haddr : addr + 4 < 2 ^ 64) : Agrees r σ w s :=
+  movWide_agrees w addr r hc h σ s ha hpc haddr
+
+theorem lift_correct_nop (addr : Nat) (σ : State) (s : A64.St) (ha : Abs σ s)
+    (hpc : s.pc = BitVec.ofNat 64 addr) (haddr : addr + 4 < 2 ^ 64) :
+    ∃ r, lift (0xd503201f#32) addr = some r ∧ Agrees r σ (0xd503201f#32) s :=
+  nop_agrees addr σ s ha hpc haddr
+
+/-- B and BL (`op 00101 imm26`): the successor / branch target is `PC + SignExtend(imm26:00)`; BL writes X30 = PC + 4 -/
+theorem lift_correct_b_bl (w : BitVec 32) (addr : Nat) (r : BTR) (hc : fld w 30 26 = 0b00101)
+    (h : lift w addr = some r) (σ : State) (s : A64.St) (ha : Abs σ s)
+    (hpc : s.pc = BitVec.ofNat 64 addr) (haddr : addr + 4 < 2 ^ 64) : Agrees r σ w s :=
+  bImm_agrees w addr r hc h σ s ha hpc haddr
+
+/-- BR, BLR, RET (`1101011 opc 11111 000000 Rn 00000`): the target is X[n] (XZR for 31), read BEFORE BLR writes X30
+    (holds since the repairs 7bf2ccf and c6a73a3) -/
+theorem lift_correct_br_blr_ret (w : BitVec 32) (addr : Nat) (r : BTR) (hc : fld w 31 25 = 0b1101011)
+    (h : lift w addr = some r) (σ : State) (s : A64.St) (ha : Abs σ s)
+    (hpc : s.pc = BitVec.ofNat 64 addr) (haddr : addr + 4 < 2 ^ 64) : Agrees r σ w s :=
+  brReg_agrees w addr r hc h σ s ha hpc haddr
+
+/-! ### (A-partial) integer loads, immediate addressing modes -/
+
+/-- `Mem[address, size]` of the specification (per-byte 64-bit address arithmetic, `BigEndian()`) returns the constant
+    the IL load builds (`readBytes` + `constOfBytes` in the memory's endianness) -/
+theorem mem_read_agrees (s : A64.St) (σ : State) (hm : σ.mem = s.mem)
+    (he : σ.endian = if s.big then Endian.big else Endian.little)
+    (a : BitVec 64) (k : Nat) (hw : a.toNat + k ≤ 2 ^ 64) (data : BitVec (8 * k))
+    (h : A64.memRead s a k = some data) :
+    ∃ bs, σ.mem.readBytes a.toNat k = some bs ∧ constOfBytes σ.endian bs = ofBV data :=
+  memRead_bytes s σ hm he a k hw data h
+
+/-- the block `load temp, [addr-expr]; Rt := (sign-)extended temp; (write-back)` against `A64.ldstInt … .load …`:
+    mode 4 = unsigned offset, 0 = unscaled, 1 = post-index, 3 = pre-index; n = 31 is SP, t = 31 discards;
+    CONSTRAINED UNPREDICTABLE (write-back with n = t ≠ 31) is excluded by `hs` (the body then is not `.ok`) -/
+theorem load_block_correct_partial (σ : State) (s : A64.St) (ha : Abs σ s) (addr mode n t off sz regsize : Nat)
+    (signed : Bool) (hk : sz = 1 ∨ sz = 2 ∨ sz = 4 ∨ sz = 8) (hreg : regsize = 32 ∨ regsize = 64)
+    (hkr : 8 * sz ≤ regsize) (hsr : signed = true → 8 * sz < regsize)
+    (hn : n < 32) (ht : t < 32) (hoff : off < 2 ^ 64) (hmode : mode = 0 ∨ mode = 1 ∨ mode = 3 ∨ mode = 4)
+    (hpc : s.pc = BitVec.ofNat 64 addr) (haddr : addr + 4 < 2 ^ 64)
+    (s' : A64.St)
+    (hs : A64.ldstInt s .load signed sz regsize n t (BitVec.ofNat 64 off)
+            (decide (mode = 1 ∨ mode = 3)) (decide (mode = 1)) = .ok s')
+    (hnowrap : (if mode = 1 then A64.XSP s n 64 else A64.XSP s n 64 + BitVec.ofNat 64 off).toNat + sz ≤ 2 ^ 64) :
+    ∃ σ', runBTR (straight addr
+        ([.load (temp addr (8 * sz)) (memOperand mode n off).1,
+          setZ (if signed = true then regsize else 8 * sz) t
+            (if signed = true then Expr.ext .sext regsize (.scalar (temp addr (8 * sz))) else .scalar (temp addr (8 * sz)))]
+         ++ (memOperand mode n off).2)) σ = .next σ' [s'.pc.toNat] ∧ Abs σ' s' :=
+  load_block_agrees σ s ha addr mode n t off sz regsize signed hk hreg hkr hsr hn ht hoff hmode hpc haddr s' hs hnowrap
+
+/-! ### non-vacuity -/
+
+/-- `add x0, x1, #1` (0x91000420) is in the add/sub-immediate class and the mirror lifts it -/
+example : fld (0x91000420#32) 28 23 = 0b100010 := by decide
+example : ∃ r, lift (0x91000420#32) 0x1000 = some r := ⟨_, rfl⟩
+/-- `adds w3, w3, w3, lsl #1` (destination = both sources: the case repaired by 78c87ba) -/
+example : fld (0x2b030463#32) 28 24 = 0b01011 ∧ bit (0x2b030463#32) 21 = false := by decide
+example : ∃ r, lift (0x2b030463#32) 0x1000 = some r := ⟨_, rfl⟩
+/-- `blr x30` (0xd63f03c0) -/
+example : fld (0xd63f03c0#32) 31 25 = 0b1101011 := by decide
+example : ∃ r, lift (0xd63f03c0#32) 0x1000 = some r := ⟨_, rfl⟩
+/-- the specification is not degenerate: `subs x0, x1, x2` with x1 = 1, x2 = 2 clears C (a borrow happened) … -/
+example : (A64.addWithCarry (1#64) (~~~(2#64)) true).2.2.2.1 = false := by decide
+/-- … and with x1 = 2, x2 = 1 sets it -/
+example : (A64.addWithCarry (2#64) (~~~(1#64)) true).2.2.2.1 = true := by decide
+
 end Falcon.C03
